@@ -69,6 +69,7 @@ func propC12(a *Analysis, r *Registry) {
 	S := X.S
 	const rB = "B-C12 formula"
 	X.NoInline["stats.series"] = true
+	X.BenignWriteTags["stats.KDE.Bandwidth"] = true // the idempotent lazy fill; every reader goes through prepare()
 	X.NoInline["stats.(*KDE).PDF$1"] = true
 	X.NoInline["stats.(*KDE).CDF$1"] = true
 	for _, n := range []string{"stats.(*KDE).PDF", "stats.(*KDE).CDF", "stats.(*KDE).Bounds"} {
@@ -337,33 +338,50 @@ func propC12(a *Analysis, r *Registry) {
 			fc := X.FCFor(fn)
 			env := X.EnvFor(fn, "f")
 			rv := fc.RetVal(0)
-			from := rv
-			if ph, ok := X.phiOf[rv.SingleAtom().ID]; ok {
+			if at := rv.SingleAtom(); at != nil && X.phiOf[at.ID] != nil {
+				// while form: y, yp, n carried; runs while y != yp
+				from := rv
+				ph := X.phiOf[at.ID]
 				if ifi, ok := ph.Block().Instrs[len(ph.Block().Instrs)-1].(*ssa.If); ok {
 					from = S.MakeFn("tuple", rv, fc.Val(ifi.Cond))
 				}
-			}
-			vars := b.LoopSystem(rB, "stats.series/recurrences", b.pos(fn), fc, from, env, []recSpec{{"y", "0", "y+f(n)"}, {"yp", "1", "y"}, {"n", "0", "n+1"}})
-			if vars == nil {
-				return
-			}
-			for k, v := range vars {
-				env.Set(k, v, nil)
-			}
-			b.EqRF(rB, "stats.series/result", b.pos(fn), rv, vars["y"], "returns the accumulated sum")
-			hdr := X.phiOf[vars["y"].SingleAtom().ID].Block()
-			var body *ssa.BasicBlock
-			fc.Ctx.Instrs(func(in ssa.Instruction) {
-				if c, ok := in.(*ssa.Call); ok && c.Call.StaticCallee() == nil && !c.Call.IsInvoke() {
-					if _, isB := c.Call.Value.(*ssa.Builtin); !isB {
-						body = c.Block()
-					}
+				vars := b.LoopSystem(rB, "stats.series/recurrences", b.pos(fn), fc, from, env, []recSpec{{"y", "0", "y+f(n)"}, {"yp", "1", "y"}, {"n", "0", "n+1"}})
+				if vars == nil {
+					return
 				}
-			})
-			if body == nil {
-				r.Fail(rB, "stats.series/runs-until-converged", b.pos(fn), "the loop does not evaluate f")
+				for k, v := range vars {
+					env.Set(k, v, nil)
+				}
+				b.EqRF(rB, "stats.series/result", b.pos(fn), rv, vars["y"], "returns the accumulated sum")
+				hdr := X.phiOf[vars["y"].SingleAtom().ID].Block()
+				var body *ssa.BasicBlock
+				fc.Ctx.Instrs(func(in ssa.Instruction) {
+					if c, ok := in.(*ssa.Call); ok && c.Call.StaticCallee() == nil && !c.Call.IsInvoke() {
+						if _, isB := c.Call.Value.(*ssa.Builtin); !isB {
+							body = c.Block()
+						}
+					}
+				})
+				if body == nil {
+					r.Fail(rB, "stats.series/runs-until-converged", b.pos(fn), "the loop does not evaluate f")
+				} else {
+					b.Eq(rB, "stats.series/runs-until-converged", b.pos(fn), fc.ReachCondFrom(hdr, body), env, "y!=yp")
+				}
 			} else {
-				b.Eq(rB, "stats.series/runs-until-converged", b.pos(fn), fc.ReachCondFrom(hdr, body), env, "y!=yp")
+				// do-while form: y, n carried; returns y+f(n) as soon as it equals y
+				vars := b.LoopSystem(rB, "stats.series/recurrences", b.pos(fn), fc, rv, env, []recSpec{{"y", "0", "y+f(n)"}, {"n", "0", "n+1"}})
+				if vars == nil {
+					return
+				}
+				for k, v := range vars {
+					env.Set(k, v, nil)
+				}
+				b.Eq(rB, "stats.series/result", b.pos(fn), rv, env, "y+f(n)")
+				hdr := X.phiOf[vars["y"].SingleAtom().ID].Block()
+				rets := fc.Ctx.Returns()
+				if len(rets) == 1 {
+					b.Eq(rB, "stats.series/runs-until-converged", b.pos(fn), fc.ReachCondFrom(hdr, rets[0].Block()), env, "y+f(n)==y")
+				}
 			}
 			if len(fc.Ctx.Returns()) != 1 {
 				r.Fail(rB, "stats.series/single-exit", b.pos(fn), "the sum can be cut short by another exit")
@@ -381,28 +399,62 @@ func propC12(a *Analysis, r *Registry) {
 		b.guard(rB, name, func() {
 			fc := X.FCFor(fn)
 			env := X.EnvFor(fn, "kde")
-			calls := fc.CallsTo("stats.bisect")
-			if len(calls) != 2 {
-				r.Fail(rB, name+"/bisections", b.pos(fn), "expected two bisections (low and high quantile)")
+			// the two bisections, wherever they are made (here or in a helper): the
+			// distinct bisect results the returned values are built from
+			r0, r1 := fc.RetVal(0), fc.RetVal(1)
+			var bis []*Atom
+			seenB := map[AtomID]bool{}
+			for _, rv := range []*RF{r0, r1} {
+				for _, at := range FindFn(rv, "stats.bisect#0") {
+					if !seenB[at.ID] {
+						seenB[at.ID] = true
+						bis = append(bis, at)
+					}
+				}
+			}
+			if len(bis) != 2 {
+				r.Fail(rB, name+"/bisections", b.pos(fn), "expected two bisections (low and high quantile), found "+itoa(len(bis))+": low = "+clip(r0.String(), 400))
 				return
 			}
 			targets := []string{"0.005", "0.995"}
-			for i, c := range calls {
-				mc, ok := c.Call.Args[0].(*ssa.MakeClosure)
-				if !ok {
-					r.Fail(rB, name+"/bisect-target", a.W.InstrPos(c), "bisect is not given a closure")
+			var byTarget [2]*Atom
+			for _, at := range bis {
+				cl := at.Args[0].SingleAtom()
+				var cfc *FC
+				if cl != nil {
+					cfc = X.ClosureFC(cl.ID)
+				}
+				if cfc == nil {
+					r.Fail(rB, name+"/bisect-target", b.pos(fn), "bisect is not given a closure")
 					continue
 				}
-				cf := mc.Fn.(*ssa.Function)
-				cenv := X.EnvFor(cf, "x")
+				cenv := X.EnvFor(cfc.Fn, "x")
 				cenv.Set("kde", X.ParamRF(fn, 0), fn.Params[0].Type())
-				b.Eq(rB, name+"/bisect-target#"+itoa(i), b.pos(cf), X.FCFor(cf).RetVal(0), cenv, "kde.CDF(x)-"+targets[i])
+				body := cfc.RetVal(0)
+				matched := false
+				for i, tg := range targets {
+					want := cenv.MustParse("kde.CDF(x)-" + tg)
+					if body.Equal(want) || X.EquivByCases(body, want, 0) {
+						if byTarget[i] == nil {
+							byTarget[i] = at
+							matched = true
+							r.OK(rB, name+"/bisect-target#"+itoa(i), b.pos(cfc.Fn), "bisects kde.CDF(x)-"+tg)
+						}
+					}
+				}
+				if !matched {
+					r.Fail(rB, name+"/bisect-target", b.pos(cfc.Fn), "bisection target is neither CDF(x)-0.005 nor CDF(x)-0.995: "+clip(body.String(), 200))
+				}
+			}
+			if byTarget[0] == nil || byTarget[1] == nil {
+				r.Fail(rB, name+"/bisections", b.pos(fn), "need one bisection for the 0.5% and one for the 99.5% quantile")
+				return
 			}
 			for k := 1; k <= 3; k++ {
-				b.EqRF(rB, name+"/same-bracket#"+itoa(k), a.W.InstrPos(calls[1]), fc.Val(calls[1].Call.Args[k]), fc.Val(calls[0].Call.Args[k]), "both bisections use the same bracket and tolerance")
+				b.EqRF(rB, name+"/same-bracket#"+itoa(k), b.pos(fn), byTarget[1].Args[k], byTarget[0].Args[k], "both bisections use the same bracket and tolerance")
 			}
-			env.Set("lo", S.MakeFn("stats.bisect#0", argsOf(fc, calls[0])...), nil)
-			env.Set("hi", S.MakeFn("stats.bisect#0", argsOf(fc, calls[1])...), nil)
+			env.Set("lo", S.atomRF(byTarget[0].ID), nil)
+			env.Set("hi", S.atomRF(byTarget[1].ID), nil)
 			env.Let("bc", "kde.prepare()#1")
 			b.Eq(rB, name+"/low", b.pos(fn), fc.RetVal(0), env, "ite(bc, fmax(lo-0.1*(hi-lo), kde.BoundaryMin), lo-0.1*(hi-lo))")
 			b.Eq(rB, name+"/high", b.pos(fn), fc.RetVal(1), env, "ite(bc, fmin(hi+0.1*(hi-lo), kde.BoundaryMax), hi+0.1*(hi-lo))")
